@@ -390,47 +390,6 @@ namespace
                 run(m_grid->nodes_indices());
             else
                 run(m_grid->nodes_indices(ns(static_cast<uint8_t>(filter))));
-            // the same walk with iterators that outlive the (temporary) container they came from:
-            // nodes_indices() returns its container by value and an iterator is a value of its own
-            // (seeded change C08-H); the two walks must agree
-            std::vector<size_t> out2;
-            if (filter < 0)
-            {
-                if (!reverse)
-                {
-                    auto it = m_grid->nodes_indices().begin();
-                    auto end = m_grid->nodes_indices().end();
-                    for (; it != end; ++it)
-                        out2.push_back(*it);
-                }
-                else
-                {
-                    auto it = m_grid->nodes_indices().rbegin();
-                    auto end = m_grid->nodes_indices().rend();
-                    for (; it != end; ++it)
-                        out2.push_back(*it);
-                }
-            }
-            else
-            {
-                auto st = ns(static_cast<uint8_t>(filter));
-                if (!reverse)
-                {
-                    auto it = m_grid->nodes_indices(st).begin();
-                    auto end = m_grid->nodes_indices(st).end();
-                    for (; it != end; ++it)
-                        out2.push_back(*it);
-                }
-                else
-                {
-                    auto it = m_grid->nodes_indices(st).rbegin();
-                    auto end = m_grid->nodes_indices(st).rend();
-                    for (; it != end; ++it)
-                        out2.push_back(*it);
-                }
-            }
-            if (out2 != out)
-                throw va::HarnessObservation("nodes_indices: iterators taken from temporaries yield " + std::to_string(out2.size()) + " indices, a named container " + std::to_string(out.size()));
             return out;
         }
         size_t cache_used() override
